@@ -18,6 +18,18 @@ DOC_VERDICTS = ("happy", "LonelyError", "WrongPasswordError", "ServerError", "We
 
 
 def cases(rng, tier):
+    return _guided_cases(rng, tier) + _pair_cases(rng, tier)
+
+
+def _pair_cases(rng, tier):
+    # both API styles: a delegated and a Deferred client; after closed nothing may reach the application,
+    # not even through get_message() on messages that were buffered before the close
+    m = 25 if tier == "quick" else 600
+    return [dict(kind="pair", seed=rng.randrange(10**9), fifo=rng.random() < 0.5, match=rng.random() < 0.8,
+                 nmsg=rng.randrange(1, 4), drops=rng.random() < 0.3) for _ in range(m)]
+
+
+def _guided_cases(rng, tier):
     n = 50 if tier == "quick" else 1200
     out = [dict(seed=2000 + i, n=60, profile=p) for i, p in enumerate(mc.PROFILES)]
     for _ in range(n):
@@ -55,7 +67,8 @@ def oracle(summary):
     elif v == "WelcomeError":
         ok = h["welcome_error"]
     elif v == "ServerConnectionError":
-        ok = True
+        # only a wormhole that never had a working server connection may give up like this
+        ok = not summary.get("ever_opened", False)
     else:
         ok = False
     if not ok:
@@ -110,6 +123,12 @@ evidence_extra = mc.cert_stats
 
 
 def run_case(case):
+    if case.get("kind") == "pair":
+        from . import c18
+        r = c18.run_pair(case)
+        keep = [(sg, m) for sg, m in r.violations
+                if sg.startswith(("get-after-closed", "event-after-closed", "event-twice:closed", "internal"))]
+        return Result([], [], keep, ["pair"], True, info=r.info)
     if case.get("kind") == "trace":
         return mc.run_trace_case(case, trace_oracle)
     if "ops" in case:
@@ -136,6 +155,8 @@ def explicit(case):
 
 
 def shrink(case):
+    if case.get("kind") == "pair":
+        return
     if case.get("kind") == "trace":
         yield from mc.trace_shrink(case)
         return
